@@ -47,6 +47,8 @@ def plan(ctx):
             items.append(('single', engine.stable_hash((ctx.seed, 'c06s', i))))
         for i in range(ctx.n(24, 0)):
             items.append(('long', engine.stable_hash((ctx.seed, 'c06l', i))))
+        for i in range(ctx.n(20, 0)):
+            items.append(('bufedge', engine.stable_hash((ctx.seed, 'c06b', i))))
     else:
         for (r, dd) in combos:
             for part in range(4):
@@ -59,6 +61,8 @@ def plan(ctx):
             items.append(('single', engine.stable_hash((ctx.seed, 'c06s', i))))
         for i in range(ctx.n(0, 600)):
             items.append(('long', engine.stable_hash((ctx.seed, 'c06l', i))))
+        for i in range(ctx.n(0, 300)):
+            items.append(('bufedge', engine.stable_hash((ctx.seed, 'c06b', i))))
     return items
 
 
@@ -71,7 +75,7 @@ EXHAUSTIVE_SCOPE = ('all ordered pairs of token sequences of length 0-4 over {a,
                     'the thorough tier; random and single-run families are sampled')
 
 
-def base_opts(regex, dist, sbs_view=False, by_reference=False):
+def base_opts(regex, dist, sbs_view=False, by_reference=False, extra=None):
     o = gen.tagged_styles()
     if by_reference:
         # the emphasis styles given as references to other style options (a documented way to write a style): same
@@ -89,6 +93,8 @@ def base_opts(regex, dist, sbs_view=False, by_reference=False):
     o['--hunk-header-style'] = gen.TAGS['hh'] + ' line-number'
     o['--hunk-header-decoration-style'] = 'none'
     o['--line-buffer-size'] = 64
+    if extra:
+        o.update(extra)
     if sbs_view:
         o['--side-by-side'] = True
         o['--width'] = 400
@@ -155,7 +161,7 @@ def paired(cells):
     return any(cl in ('emph', 'nonemph') for _, cl in cells)
 
 
-def run_subhunks(subhunks, regex, dist, sbs_view=False, by_reference=False):
+def run_subhunks(subhunks, regex, dist, sbs_view=False, by_reference=False, extra=None):
     """subhunks: list of (minus_lines, plus_lines).  Returns (res, per-subhunk list of (minus_infos, plus_infos)) for
     unified view."""
     lines = ['diff --git a/f b/f', '--- a/f', '+++ b/f']
@@ -165,7 +171,7 @@ def run_subhunks(subhunks, regex, dist, sbs_view=False, by_reference=False):
         lines += ['-' + m for m in ms] + ['+' + p for p in ps] + [' ZZctxZZ']
         o += 1
     data = ('\n'.join(lines) + '\n').encode()
-    res = runner.run_delta(gen.to_args(base_opts(regex, dist, sbs_view, by_reference)), data, timeout=120)
+    res = runner.run_delta(gen.to_args(base_opts(regex, dist, sbs_view, by_reference, extra)), data, timeout=120)
     return res
 
 
@@ -263,6 +269,8 @@ def run_item(item):
         return run_rand(item)
     if kind == 'long':
         return run_long(item)
+    if kind == 'bufedge':
+        return run_buffer_edge(item)
     return run_single(item)
 
 
@@ -563,6 +571,51 @@ def run_long(item):
         else:
             counters['long_pairs'] += 1
     outs.append(held(sig=('long', tuple(scripts), dist), nontrivial=True, counters=counters, sets=sets))
+    return outs
+
+
+def run_buffer_edge(item):
+    """Runs of removed and added lines exactly as long as the line buffer (and one shorter): the i-th removed line is
+    paired with the i-th added line (distance threshold 1) and the one differing word is emphasised; the buffer limit
+    only matters for longer runs."""
+    _, seed = item
+    rng = engine.item_rng(seed)
+    size = rng.choice([2, 3, 4, 8, 32])
+    regex = r'\w+'
+    subhunks, lens = [], []
+    for n in (size, size - 1, size):
+        if n < 1:
+            continue
+        ms = ['line%d common text before OLD%d and after' % (i, i) for i in range(n)]
+        ps = ['line%d common text before NEW%d and after' % (i, i) for i in range(n)]
+        subhunks.append((ms, ps))
+        lens.append(n)
+    res = run_subhunks(subhunks, regex, '1', extra={'--line-buffer-size': size})
+    c = crash_outcome(res, ID)
+    if c is not None:
+        return [c]
+    if res.rc != 0:
+        return [inconclusive('exit %d' % res.rc)]
+    groups = split_unified(res, subhunks)
+    sets = {'family': ['buffer-edge'], 'regex': [regex], 'distance': ['1'], 'line_buffer_sizes': [str(size)]}
+    if len(groups) != len(subhunks):
+        return [inconclusive('rows of the buffer-edge sub-hunks could not be grouped', sets=sets)]
+    outs = []
+    counters = {'buffer_edge_lines': 0}
+    for grp, (ms, ps), n in zip(groups, subhunks, lens):
+        if len(grp) != 2 * n + 1:
+            outs.append(inconclusive('unexpected number of rows for a run of %d+%d lines' % (n, n), sets=sets))
+            continue
+        for i, (info, text) in enumerate(zip(grp[:2 * n], ms + ps)):
+            cells, ok = strip_trailing_fill(cell_classes(info), text)
+            word = ('OLD%d' if i < n else 'NEW%d') % (i % n)
+            em = ''.join(ch for ch, cl in cells if cl == 'emph') if ok else None
+            if not ok or not paired(cells) or em.strip() != word:
+                outs.append(violated('c06:buffer-edge:not-paired', 'in a run of %d removed and %d added lines with --line-buffer-size %d (threshold 1) line %d is not '
+                                     'paired with its counterpart / does not emphasise the one differing word' % (n, n, size, i % n + 1), word, em, run=res, sets=sets))
+                break
+            counters['buffer_edge_lines'] += 1
+    outs.append(held(sig=('buffer-edge', size), nontrivial=True, counters=counters, sets=sets))
     return outs
 
 
